@@ -159,7 +159,7 @@ def date_check(d, m, y, h, mi):
 def ob_date(di: int, m: int, yi: int, hi: int, mi: int) -> bool:
     """
     pre: 0 <= di < ND and 0 <= m < NMO and 0 <= yi < NY and 0 <= hi < NH and 0 <= mi < NM
-    pre: (hi == HI0 and mi == MI0) or (di == DI0 and m == MO0 and yi == 0 and (WIDE or ((hi == 0 or hi == 7) and mi != 2)))
+    pre: (hi == HI0 and mi == MI0) or (di == DI0 and m == MO0 and yi == 0 and ((WIDE and mi in (0, 5, 30, 59)) or (not WIDE and (hi == 0 or hi == 7) and mi != 2)))
     post: _
     """
     with NoTracing():
